@@ -227,6 +227,79 @@ def _no_call(e):
                    for n in ast.walk(e))
 
 
+def _class_default(x):
+    """``name = <constant>`` in a class body"""
+    return isinstance(x, ast.Assign) and len(x.targets) == 1 and isinstance(x.targets[0], ast.Name) \
+        and isinstance(x.value, ast.Constant)
+
+
+def _desugar_with(tree, known):
+    """``with C(args) as x: BODY`` for a class C introduced by the edit whose __enter__ only
+    returns self and whose __exit__ never swallows (every return is False / None) and does not
+    look at the exception it is given:   x = C(args); try: BODY finally: x.__exit__(None, None, None)
+    -- the statement the ``with`` is defined to mean; the Inliner then dissolves the object"""
+    kc = set(known.get('classes', ()))
+    cms = {}
+    for st in tree.body:
+        if not (isinstance(st, ast.ClassDef) and st.name not in kc):
+            continue
+        meths = {x.name: x for x in st.body if isinstance(x, ast.FunctionDef)}
+        en, ex = meths.get('__enter__'), meths.get('__exit__')
+        if en is None or ex is None or en.decorator_list or ex.decorator_list:
+            continue
+        body = [x for x in en.body if not _is_doc(x)]
+        me = en.args.args[0].arg if en.args.args else None
+        if not (len(body) == 1 and isinstance(body[0], ast.Return) and
+                isinstance(body[0].value, ast.Name) and body[0].value.id == me):
+            continue
+        ok = True
+        for n in _stmts_walk(ex.body):
+            if isinstance(n, ast.Return) and n.value is not None and not (
+                    isinstance(n.value, ast.Constant) and not n.value.value):
+                ok = False
+            if isinstance(n, ast.Name) and n.id in [a.arg for a in ex.args.args[1:]]:
+                ok = False
+        if ok and len(ex.args.args) == 4 and not ex.args.vararg and not ex.args.kwarg:
+            cms[st.name] = st
+    if not cms:
+        return tree
+    counter = [0]
+
+    def rewrite(stmts):
+        out = []
+        for s in stmts:
+            for fld in ('body', 'orelse', 'finalbody'):
+                sub = getattr(s, fld, None)
+                if isinstance(sub, list) and sub and isinstance(sub[0], ast.stmt):
+                    setattr(s, fld, rewrite(sub))
+            for h in getattr(s, 'handlers', None) or []:
+                h.body = rewrite(h.body)
+            if isinstance(s, ast.With) and len(s.items) == 1:
+                it = s.items[0]
+                c = it.context_expr
+                if isinstance(c, ast.Call) and isinstance(c.func, ast.Name) and c.func.id in cms and \
+                        (it.optional_vars is None or isinstance(it.optional_vars, ast.Name)):
+                    counter[0] += 1
+                    v = it.optional_vars.id if it.optional_vars is not None else '__cm_%d' % counter[0]
+                    asg = ast.copy_location(ast.Assign(targets=[ast.Name(id=v, ctx=ast.Store())],
+                                                       value=c), s)
+                    call = ast.Call(func=ast.Attribute(value=ast.Name(id=v, ctx=ast.Load()),
+                                                       attr='__exit__', ctx=ast.Load()),
+                                    args=[ast.Constant(value=None)] * 3, keywords=[])
+                    fin = ast.copy_location(ast.Expr(value=call), s)
+                    tr = ast.copy_location(ast.Try(body=s.body, handlers=[], orelse=[],
+                                                   finalbody=[fin]), s)
+                    out.extend([asg, tr])
+                    continue
+            out.append(s)
+        return out
+    for n in ast.walk(tree):
+        if isinstance(n, (ast.FunctionDef, ast.AsyncFunctionDef)):
+            n.body = rewrite(n.body)
+    ast.fix_missing_locations(tree)
+    return tree
+
+
 class _Rename(ast.NodeTransformer):
     def __init__(self, ren, subst):
         self.ren = ren
@@ -294,14 +367,15 @@ class Inliner:
                 simple = st.name not in set(self.known.get('classes', ())) and \
                     not st.decorator_list and not st.keywords and \
                     all(isinstance(b, ast.Name) and b.id == 'object' for b in st.bases) and \
-                    all(_is_doc(x) or isinstance(x, (ast.FunctionDef, ast.Pass)) for x in st.body)
+                    all(_is_doc(x) or isinstance(x, (ast.FunctionDef, ast.Pass)) or _class_default(x)
+                        for x in st.body)
                 if simple:
                     self.objclasses[st.name] = st
                 for s2 in st.body:
                     if isinstance(s2, ast.FunctionDef) and \
                             '%s.%s' % (st.name, s2.name) not in kf:
                         if s2.name.startswith('__') and s2.name.endswith('__') and not (
-                                simple and s2.name in ('__init__', '__call__')):
+                                simple and s2.name in ('__init__', '__call__', '__enter__', '__exit__')):
                             continue
                         if self._eligible(s2, '%s.%s' % (st.name, s2.name), method=True):
                             self.methods[(st.name, s2.name)] = s2
@@ -400,6 +474,11 @@ class Inliner:
     # -- driver
     def run(self):
         if not self.funcs and not self.methods:
+            # nothing to inline; loops over a literal are still written out
+            for n in ast.walk(self.tree):
+                if isinstance(n, ast.FunctionDef) and _has_literal_loop(n):
+                    _simplify_function(n, self.records)
+            ast.fix_missing_locations(self.tree)
             return self.tree
         for st in self.tree.body:
             if isinstance(st, ast.FunctionDef):
@@ -418,6 +497,8 @@ class Inliner:
 
     def _host_fn(self, fn, cls, stack):
         names = _names_in(fn) | {a.arg for a in ast.walk(fn) if isinstance(a, ast.arg)}
+        if not hasattr(fn, '_orig_names'):
+            fn._orig_names = set(names)
         shadow = _stored_names(fn) | {a.arg for a in fn.args.posonlyargs + fn.args.args +
                                       fn.args.kwonlyargs}
         host = (fn, cls, shadow)
@@ -450,6 +531,8 @@ class Inliner:
     def _class_fields(self, cname):
         out = set()
         for x in self.objclasses[cname].body:
+            if _class_default(x):
+                out.add(x.targets[0].id)
             if isinstance(x, ast.FunctionDef) and (x.args.posonlyargs + x.args.args):
                 me = (x.args.posonlyargs + x.args.args)[0].arg
                 for n in ast.walk(x):
@@ -536,6 +619,11 @@ class Inliner:
                 new = got[0]
             elif ctor.value.args or ctor.value.keywords:
                 continue
+            defaults = [ast.copy_location(ast.Assign(
+                targets=[ast.Attribute(value=ast.Name(id=v, ctx=ast.Load()), attr=x.targets[0].id,
+                                       ctx=ast.Store())], value=copy.deepcopy(x.value)), ctor)
+                for x in self.objclasses[cname].body if _class_default(x)]
+            new = defaults + list(new)
             if not _replace_stmt(fn, ctor, new):
                 continue
             allnames = _names_in(fn)
@@ -1289,6 +1377,9 @@ class _Fold(ast.NodeTransformer):
             if isinstance(v, ast.Constant):
                 if bool(v.value) == is_and:
                     continue                     # neutral element
+                if all(_pure(x) for x in vals) and isinstance(v.value, bool):
+                    vals = [v]                   # what comes before has no effect: the constant
+                    break
                 vals.append(v)                   # absorbing: nothing after it is evaluated
                 break
             vals.append(v)
@@ -1576,10 +1667,10 @@ def _unroll_literal_loops(stmts):
         for h in getattr(s, 'handlers', None) or []:
             h.body = _unroll_literal_loops(h.body)
         if isinstance(s, ast.For) and isinstance(s.iter, (ast.Tuple, ast.List)) and not s.orelse and \
-                len(s.iter.elts) <= 12 and not any(isinstance(e, ast.Starred) for e in s.iter.elts):
+                len(s.iter.elts) <= 24 and not any(isinstance(e, ast.Starred) for e in s.iter.elts):
             s.body = _continue_to_guard(s.body)
         if isinstance(s, ast.For) and isinstance(s.iter, (ast.Tuple, ast.List)) and not s.orelse and \
-                len(s.iter.elts) <= 12 and not any(isinstance(e, ast.Starred) for e in s.iter.elts) and \
+                len(s.iter.elts) <= 24 and not any(isinstance(e, ast.Starred) for e in s.iter.elts) and \
                 not any(isinstance(n, (ast.Break, ast.Continue)) for n in _stmts_walk(s.body)):
             for e in s.iter.elts:
                 a = ast.copy_location(ast.Assign(targets=[copy.deepcopy(s.target)], value=e), s)
@@ -1614,7 +1705,7 @@ def _continue_to_guard(body):
 
 def _has_literal_loop(fn):
     return any(isinstance(n, ast.For) and isinstance(n.iter, (ast.Tuple, ast.List)) and not n.orelse
-               and len(n.iter.elts) <= 12 and
+               and len(n.iter.elts) <= 24 and
                not any(isinstance(x, ast.Break) for x in _stmts_walk(n.body))
                for n in _stmts_walk(fn.body))
 
@@ -1714,6 +1805,11 @@ def _propagate_unrolled(fn):
                 for k in list(env):
                     if k in killed or (_names_in(env[k]) & killed):
                         del env[k]
+                if isinstance(st, (ast.For, ast.While)) and env:
+                    # a binding that the loop does not touch is invariant inside the loop
+                    subst_expr_field(st, 'iter' if isinstance(st, ast.For) else 'test', env)
+                    block(st.body, env)
+                    block(st.orelse, env)
                 continue
             if isinstance(st, ast.If):
                 subst_expr_field(st, 'test', env)
@@ -1820,8 +1916,223 @@ def _simplify_function(fn, records):
     _scalar_replace(fn, records)
     if _tuple_replace(fn):
         _copy_back(fn)
+    _unswitch_loops(fn)
+    _fuse_try_flags(fn)
+    _drop_dead_generated(fn)
+    _coalesce_unpack_copies(fn)
     _propagate(fn)
+    _alias_propagate(fn)
     _fix_empty(fn)
+
+
+def _fuse_try_flags(fn):
+    """``try: A  except E: F = False  else: B; F = True`` directly followed by ``if F: C else: D``
+    where the flag F is read nowhere else:  C is appended to the branches that set F true and D to
+    those that set it false, the flag disappears.  (No finally clause: C / D must stay after it.)"""
+    loads = {}
+    for n in _stmts_walk(fn.body):
+        if isinstance(n, ast.Name) and isinstance(n.ctx, ast.Load):
+            loads[n.id] = loads.get(n.id, 0) + 1
+
+    def flag_store(st):
+        if isinstance(st, ast.Assign) and len(st.targets) == 1 and isinstance(st.targets[0], ast.Name) \
+                and isinstance(st.value, ast.Constant) and isinstance(st.value.value, bool):
+            return st.targets[0].id, st.value.value
+        return None
+
+    def rewrite(stmts):
+        i = 0
+        while i < len(stmts):
+            st = stmts[i]
+            for fld in ('body', 'orelse', 'finalbody'):
+                sub = getattr(st, fld, None)
+                if isinstance(sub, list) and sub and isinstance(sub[0], ast.stmt) and \
+                        not isinstance(st, (ast.FunctionDef, ast.ClassDef)):
+                    rewrite(sub)
+            for h in getattr(st, 'handlers', None) or []:
+                rewrite(h.body)
+            nxt = stmts[i + 1] if i + 1 < len(stmts) else None
+            if isinstance(st, ast.Try) and not st.finalbody and st.handlers and isinstance(nxt, ast.If):
+                t = nxt.test
+                neg = isinstance(t, ast.UnaryOp) and isinstance(t.op, ast.Not)
+                f = t.operand if neg else t
+                if isinstance(f, ast.Name) and loads.get(f.id) == 1:
+                    branches = [h.body for h in st.handlers]
+                    if st.orelse:
+                        branches.append(st.orelse)
+                    elif st.body and flag_store(st.body[-1]):
+                        st.orelse = [st.body.pop()]
+                        branches.append(st.orelse)
+                    else:
+                        branches = None
+                    vals = None
+                    if branches is not None:
+                        vals = [flag_store(b[-1]) if b else None for b in branches]
+                    stores_elsewhere = False
+                    if vals and all(v is not None and v[0] == f.id for v in vals):
+                        inside = {id(b[-1]) for b in branches}
+                        for n in _stmts_walk(fn.body):
+                            if isinstance(n, ast.Assign) and any(
+                                    isinstance(x, ast.Name) and x.id == f.id for x in n.targets) and \
+                                    id(n) not in inside:
+                                stores_elsewhere = True
+                        if not stores_elsewhere:
+                            for b, (_nm, v) in zip(branches, vals):
+                                b.pop()
+                                taken = nxt.body if (v != neg) else nxt.orelse
+                                b.extend(copy.deepcopy(x) for x in taken)
+                                if not b:
+                                    b.append(ast.copy_location(ast.Pass(), st))
+                            del stmts[i + 1]
+                            continue
+            i += 1
+    rewrite(fn.body)
+
+
+def _unswitch_loops(fn):
+    """``for x in I: PRE; if c: A else: B`` with a loop-invariant, call-free condition c (no name
+    it mentions is stored in the loop) is ``if c: for x in I: PRE; A  else: for x in I: PRE; B`` --
+    the shape "two variants of one loop" has before somebody merges them through a dispatch"""
+    def stored(node):
+        return {n.id for n in ast.walk(node) if isinstance(n, ast.Name) and
+                isinstance(n.ctx, (ast.Store, ast.Del))}
+
+    def visit(block):
+        for i, st in enumerate(list(block)):
+            for fld in ('body', 'orelse', 'finalbody'):
+                sub = getattr(st, fld, None)
+                if isinstance(sub, list) and sub and isinstance(sub[0], ast.stmt) and \
+                        not isinstance(st, (ast.FunctionDef, ast.ClassDef)):
+                    visit(sub)
+            for h in getattr(st, 'handlers', None) or []:
+                visit(h.body)
+            if isinstance(st, ast.For) and not st.orelse and st.body and isinstance(st.body[-1], ast.If) \
+                    and st.body[-1].orelse:
+                sw = st.body[-1]
+                c = sw.test
+                if any(isinstance(x, (ast.Call, ast.Await, ast.NamedExpr, ast.Subscript)) for x in ast.walk(c)):
+                    continue
+                if not any(isinstance(x, ast.Attribute) for x in ast.walk(c)):
+                    continue
+                if _names_in(c) & stored(st):
+                    continue
+                if not (getattr(sw, '_inl', False) or any(getattr(x, '_inl', False) for x in ast.walk(sw))):
+                    # only undo what the normalisation itself produced (a devirtualised call)
+                    pass
+                pre = st.body[:-1]
+                a = ast.copy_location(ast.For(target=copy.deepcopy(st.target), iter=copy.deepcopy(st.iter),
+                                              body=copy.deepcopy(pre) + sw.body, orelse=[]), st)
+                b = ast.copy_location(ast.For(target=copy.deepcopy(st.target), iter=copy.deepcopy(st.iter),
+                                              body=copy.deepcopy(pre) + sw.orelse, orelse=[]), st)
+                j = [k for k, x in enumerate(block) if x is st][0]
+                block[j] = ast.fix_missing_locations(ast.copy_location(
+                    ast.If(test=c, body=[a], orelse=[b]), st))
+    visit(fn.body)
+
+
+def _drop_dead_generated(fn):
+    """``x = <pure>`` where x was introduced by the normalisation and is never read"""
+    orig = getattr(fn, '_orig_names', None)
+    if orig is None:
+        return
+    loads = {n.id for n in ast.walk(fn) if isinstance(n, ast.Name) and isinstance(n.ctx, ast.Load)}
+    done = False
+    for n in _stmts_walk(fn.body):
+        if isinstance(n, ast.Assign) and len(n.targets) == 1 and isinstance(n.targets[0], ast.Name) and \
+                n.targets[0].id not in orig and n.targets[0].id not in loads and _pure(n.value):
+            n._dead = True
+            done = True
+    if done:
+        _remove_dead(fn)
+
+
+def _coalesce_unpack_copies(fn):
+    """``t1, t2 = RHS`` whose temporaries (introduced by the normalisation, read exactly once) are
+    copied to their real targets by the statements that execute next (``X1 = t1; X2 = t2``, in the
+    same block or at the head of the else clause of the try whose body the unpacking ends) becomes
+    ``X1, X2 = RHS``"""
+    orig = getattr(fn, '_orig_names', None)
+    if orig is None:
+        return
+    loads = {}
+    for n in ast.walk(fn):
+        if isinstance(n, ast.Name) and isinstance(n.ctx, ast.Load):
+            loads[n.id] = loads.get(n.id, 0) + 1
+
+    def follow(block, i, owner):
+        if i + 1 < len(block):
+            return block, i + 1
+        if isinstance(owner, ast.Try) and block is owner.body and owner.orelse:
+            return owner.orelse, 0
+        return None, None
+
+    def visit(block, owner):
+        for i, st in enumerate(list(block)):
+            for fld in ('body', 'orelse', 'finalbody'):
+                sub = getattr(st, fld, None)
+                if isinstance(sub, list) and sub and isinstance(sub[0], ast.stmt) and \
+                        not isinstance(st, (ast.FunctionDef, ast.ClassDef)):
+                    visit(sub, st)
+            for h in getattr(st, 'handlers', None) or []:
+                visit(h.body, h)
+            if not (isinstance(st, ast.Assign) and len(st.targets) == 1 and
+                    isinstance(st.targets[0], ast.Tuple) and st in block):
+                continue
+            elts = st.targets[0].elts
+            temps = {e.id: k for k, e in enumerate(elts) if isinstance(e, ast.Name) and
+                     e.id not in orig and loads.get(e.id) == 1}
+            if not temps:
+                continue
+            nb, j = follow(block, block.index(st), owner)
+            moved = {}
+            while nb is not None and j < len(nb):
+                c = nb[j]
+                if isinstance(c, ast.Assign) and len(c.targets) == 1 and isinstance(c.value, ast.Name) \
+                        and c.value.id in temps and c.value.id not in moved and \
+                        isinstance(c.targets[0], (ast.Name, ast.Attribute)):
+                    moved[c.value.id] = c
+                    j += 1
+                    continue
+                break
+            for t, c in moved.items():
+                tgt = copy.deepcopy(c.targets[0])
+                elts[temps[t]] = tgt
+                c._dead = True
+    visit(fn.body, fn)
+    if any(getattr(n, '_dead', False) for n in _stmts_walk(fn.body)):
+        _remove_dead(fn)
+
+
+def _alias_propagate(fn):
+    """``x = y`` where x is stored exactly once, y is a parameter (or ``self``) that is never
+    stored in the function and x was introduced by the normalisation (inlined parameter, field of
+    a dissolved object): every read of x is a read of y"""
+    params = {a.arg for a in fn.args.posonlyargs + fn.args.args + fn.args.kwonlyargs}
+    stores = {}
+    for n in _stmts_walk(fn.body):
+        if isinstance(n, ast.Name) and isinstance(n.ctx, (ast.Store, ast.Del)):
+            stores[n.id] = stores.get(n.id, 0) + 1
+        elif isinstance(n, (ast.FunctionDef, ast.ClassDef)):
+            stores[n.name] = stores.get(n.name, 0) + 2
+    done = False
+    for n in list(_stmts_walk(fn.body)):
+        if isinstance(n, ast.Assign) and len(n.targets) == 1 and isinstance(n.targets[0], ast.Name) and \
+                isinstance(n.value, ast.Name) and n.value.id in params and \
+                stores.get(n.value.id, 0) == 0 and stores.get(n.targets[0].id) == 1 and \
+                (n.targets[0].id.startswith('__cm_') or
+                 n.targets[0].id not in getattr(fn, '_orig_names', {n.targets[0].id})):
+            x, y = n.targets[0].id, n.value.id
+            # nested scopes that rebind y would change the meaning: skip then
+            nested = [m for m in ast.walk(fn) if isinstance(m, (ast.FunctionDef, ast.Lambda)) and m is not fn]
+            if any(isinstance(k, ast.Name) and k.id == x for m in nested for k in ast.walk(m)):
+                continue
+            for k in _stmts_walk(fn.body):
+                if isinstance(k, ast.Name) and k.id == x and isinstance(k.ctx, ast.Load):
+                    k.id = y
+            n._dead = True
+            done = True
+    if done:
+        _remove_dead(fn)
 
 
 def _propagate(fn):
@@ -2061,6 +2372,70 @@ def _devirtualise(tree, log=None):
     return tree
 
 
+def _module_tables(tree, known):
+    """constants introduced by the edit that only exist to drive control flow are put back where
+    they are used: ``T = {True: f, False: g}`` ... ``T[bool(c)]`` becomes ``f if c else g``; a
+    module-level tuple / list of literal rows ``ROWS = ((a, 'x', True), ...)`` iterated by ``for ...
+    in ROWS`` becomes the literal itself (the loop is then written out like any loop over a
+    literal)"""
+    kn = set(known.get('names', ()))
+    dispatch, rows = {}, {}
+    for st in tree.body:
+        if not (isinstance(st, ast.Assign) and len(st.targets) == 1 and isinstance(st.targets[0], ast.Name)
+                and st.targets[0].id not in kn):
+            continue
+        v = st.value
+        if isinstance(v, ast.Dict) and len(v.keys) == 2 and \
+                all(isinstance(k, ast.Constant) and isinstance(k.value, bool) for k in v.keys) and \
+                {k.value for k in v.keys} == {True, False} and all(isinstance(x, ast.Name) for x in v.values):
+            dispatch[st.targets[0].id] = {k.value: x for k, x in zip(v.keys, v.values)}
+        elif isinstance(v, (ast.Tuple, ast.List)) and 0 < len(v.elts) <= 24 and \
+                all(isinstance(r, (ast.Tuple, ast.Constant)) for r in v.elts) and \
+                all(_pure(r) for r in v.elts):
+            rows[st.targets[0].id] = v
+    if not dispatch and not rows:
+        return tree
+    # a name that is rebound anywhere is not a constant
+    for n in ast.walk(tree):
+        if isinstance(n, ast.Name) and isinstance(n.ctx, (ast.Store, ast.Del)):
+            for tbl in (dispatch, rows):
+                if n.id in tbl and not any(isinstance(st, ast.Assign) and st.targets[0] is n
+                                           for st in tree.body if isinstance(st, ast.Assign)):
+                    tbl.pop(n.id, None)
+
+    class T(ast.NodeTransformer):
+        def visit_Subscript(self, n):
+            self.generic_visit(n)
+            if isinstance(n.value, ast.Name) and n.value.id in dispatch and isinstance(n.ctx, ast.Load):
+                k = n.slice
+                test = None
+                if isinstance(k, ast.Call) and isinstance(k.func, ast.Name) and k.func.id == 'bool' and \
+                        len(k.args) == 1 and not k.keywords:
+                    test = k.args[0]
+                elif isinstance(k, (ast.Compare, ast.BoolOp)) or (
+                        isinstance(k, ast.UnaryOp) and isinstance(k.op, ast.Not)):
+                    test = k
+                if test is not None and _pure(test):
+                    d = dispatch[n.value.id]
+                    return ast.copy_location(ast.IfExp(test=test, body=copy.deepcopy(d[True]),
+                                                       orelse=copy.deepcopy(d[False])), n)
+            return n
+
+        def visit_For(self, n):
+            self.generic_visit(n)
+            if isinstance(n.iter, ast.Name) and n.iter.id in rows:
+                n.iter = ast.copy_location(copy.deepcopy(rows[n.iter.id]), n.iter)
+            return n
+    for fn in [x for x in ast.walk(tree) if isinstance(x, (ast.FunctionDef, ast.AsyncFunctionDef))]:
+        shadow = {a.arg for a in ast.walk(fn) if isinstance(a, ast.arg)} | \
+            {x.id for x in ast.walk(fn) if isinstance(x, ast.Name) and isinstance(x.ctx, ast.Store)}
+        if shadow & (set(dispatch) | set(rows)):
+            continue
+        T().visit(fn)
+    ast.fix_missing_locations(tree)
+    return tree
+
+
 def _blocks(body):
     """every statement list reachable from *body* without entering nested functions/classes"""
     yield body
@@ -2079,7 +2454,9 @@ def normalise(tree, modname, log=None):
     known = table().get(modname)
     if known is None or os.environ.get('VERIF_NO_NORMALISE'):
         return tree
+    tree = _module_tables(tree, known)
     tree = _devirtualise(tree, log)
+    tree = _desugar_with(tree, known)
     inl = Inliner(tree, modname, known)
     tree = inl.run()
     if log is not None:
